@@ -1185,7 +1185,7 @@ func (e *c23Env) decode(tg c23Target, in []byte, family string) {
 	}
 	// label anomalies that stem from a nil marker in a non-nullable struct field
 	cause := tg.name
-	if st == c23OK && c23NilInStructField(tg.t, node) {
+	if (st == c23OK || st == c23BadKids) && c23NilInStructField(tg.t, node) {
 		atomic.AddInt64(&e.misplacedNil, 1)
 		cause = "nil-marker-in-struct-field"
 	}
@@ -1543,7 +1543,7 @@ func c23IntFamily() [][]byte {
 
 func TestVerifC23(t *testing.T) {
 	r := ev.Start(t, "C23", "exploration")
-	r.Rule("(A) round trip: typed value grammar built with reflect — leaves: int8/16/32/64/int, uint8/16/32/64/uint at every byte-length boundary, bool, string and []byte of length {0,1,2,55,56,255,256} incl. single bytes 00/7f/80/ff and nil []byte, [4]byte, [1]byte, *big.Int (nil,0,±1,±127..129,±2^64,±2^255) and big.Int fields; constructors {pointer, slice, [2]array, map[string], 1-field struct} applied to every leaf with all leaf values (depth 1), constructor∘constructor over every leaf with representative values (depth 2), a third constructor over depth-2 shapes (quick every 4th shape, thorough all; pairwise values), integer-keyed maps, every ordered pair of leaf types as a 2-field struct, 3-field structs over 7 leaf types, 2-field structs of depth-1 shapes. (B) decoder robustness: every byte string of length<=2 (thorough: + 22 boundary first bytes x all 65536 two-byte tails) into 23 target types and UnmarshalAny; every single-byte substitution (quick 24 boundary values, thorough all 256) and truncation of valid encodings of at most 24 (thorough 40) bytes into their own type; every structural mutation of those encodings (one sub-item replaced by the nil marker / empty list / empty bytes / 00, deleted, or duplicated); length-field family (b8..bf / f8..ff headers x 18 claimed sizes x payload lengths {0,1,claim-1,claim,claim+1} x 4 fills, also nested in a list); integer family (byte strings of length 0..9 at the sign/width boundaries) into every integer type and bool. (B') pool hygiene, sequential on one P: after every accepted input of the structural, length-field and <=2-byte families the pooled BC.UnmarshalFromBytes must still decode an unrelated valid message. (C) map determinism: every insertion order of up to 4 (thorough 6) keys. distinct_nontrivial = distinct (type, encoding) resp. (target, input) pairs")
+	r.Rule("(A) round trip: typed value grammar built with reflect — leaves: int8/16/32/64/int, uint8/16/32/64/uint at every byte-length boundary, bool, string and []byte of length {0,1,2,55,56,255,256} incl. single bytes 00/7f/80/ff and nil []byte, [4]byte, [1]byte, *big.Int (nil,0,±1,±127..129,±2^64,±2^255) and big.Int fields; constructors {pointer, slice, [2]array, map[string], 1-field struct} applied to every leaf with all leaf values (depth 1), constructor∘constructor over every leaf with representative values (depth 2), a third constructor over depth-2 shapes (quick every 4th shape, thorough all; pairwise values), integer-keyed maps, every ordered pair of leaf types as a 2-field struct, 3-field structs over 7 leaf types, 2-field structs of depth-1 shapes. (B) decoder robustness: every byte string of length<=2 (thorough: + 14 boundary first bytes x all 65536 two-byte tails) into 23 target types and UnmarshalAny; every single-byte substitution (24 boundary values; thorough all 256 values for encodings of at most 10 bytes) and truncation of valid encodings of at most 24 (thorough 32) bytes into their own type; every structural mutation of those encodings (one sub-item replaced by the nil marker / empty list / empty bytes / 00, deleted, or duplicated); length-field family (b8..bf / f8..ff headers x 18 claimed sizes x payload lengths {0,1,claim-1,claim,claim+1} x 4 fills, also nested in a list); integer family (byte strings of length 0..9 at the sign/width boundaries) into every integer type and bool. (B') pool hygiene, sequential on one P: after every accepted input of the structural, length-field and <=2-byte families the pooled BC.UnmarshalFromBytes must still decode an unrelated valid message. (C) map determinism: every insertion order of up to 4 (thorough 6) keys. distinct_nontrivial = distinct (type, encoding) resp. (target, input) pairs")
 	r.Assume("a pointer to a nil slice/map/pointer has the same encoding (f8 00) as a nil pointer: the format cannot keep them apart, the decoder returns the former, and the comparison treats the two as one value",
 		"interface-typed fields and ordered TypedDict.Keys are encode-only resp. order-preserving by design and are not compared structurally (typed objects are compared through UnmarshalAny)",
 		"the independent RLP reader in the harness (with goloop's f8 00 = nil extension) is trusted for sizes and structure")
@@ -1645,7 +1645,7 @@ func TestVerifC23(t *testing.T) {
 	}
 	var bases []enc // valid encodings used as mutation seeds
 	baseSeen := map[string]bool{}
-	maxSeed := r.Pick(24, 40)
+	maxSeed := r.Pick(24, 32)
 	families := map[string]int{}
 	types := map[reflect.Type]bool{}
 	var idx int64
@@ -1655,7 +1655,7 @@ func TestVerifC23(t *testing.T) {
 		families[f]++
 		types[t] = true
 		b.add(func() { e.roundtrip(f, t, v, i) })
-		if strings.HasPrefix(f, "leaf") || strings.HasPrefix(f, "depth1") || f == "struct2" || (r.Thorough() && strings.HasPrefix(f, "depth2")) {
+		if strings.HasPrefix(f, "leaf") || strings.HasPrefix(f, "depth1") || f == "struct2" || (r.Thorough() && strings.HasPrefix(f, "depth2") && i%4 == 0) {
 			p := reflect.New(t)
 			p.Elem().Set(v)
 			if bs, err := BC.MarshalToBytes(p.Interface()); err == nil && len(bs) <= maxSeed {
@@ -1778,7 +1778,7 @@ func TestVerifC23(t *testing.T) {
 				addDecode(tg, m, "substitution")
 				muts++
 			}
-			if r.Thorough() {
+			if r.Thorough() && len(bs.b) <= 10 {
 				for v := 0; v < 256; v++ {
 					put(byte(v))
 				}
@@ -1826,7 +1826,7 @@ func TestVerifC23(t *testing.T) {
 	r.Set("structural_mutation_kinds", fmt.Sprint(structKinds))
 	// B5 thorough: 3-byte inputs = every boundary first byte x all 65536 tails
 	if r.Thorough() {
-		firsts := []byte{0x00, 0x7f, 0x80, 0x81, 0x82, 0x83, 0xb7, 0xb8, 0xb9, 0xba, 0xbb, 0xbf, 0xc0, 0xc1, 0xc2, 0xc3, 0xf7, 0xf8, 0xf9, 0xfa, 0xfb, 0xff}
+		firsts := []byte{0x7f, 0x80, 0x81, 0xb7, 0xb8, 0xb9, 0xbf, 0xc0, 0xc1, 0xc2, 0xf7, 0xf8, 0xf9, 0xff}
 		for _, x := range firsts {
 			if expired() {
 				break
@@ -1871,7 +1871,7 @@ func TestVerifC23(t *testing.T) {
 			_, err = BC.UnmarshalFromBytes(canaryBytes, &got)
 			if err != nil || got.A != canary.A || !bytes.Equal(got.B, canary.B) || got.C != nil {
 				sig := "pooled-decoder-poisoned:" + tg.name
-				if n, _, st := c23Parse(in); st == c23OK && c23NilInStructField(tg.t, n) {
+				if n, _, st := c23Parse(in); (st == c23OK || st == c23BadKids) && c23NilInStructField(tg.t, n) {
 					sig = "pooled-decoder-poisoned:nil-marker-in-struct-field"
 				}
 				r.Violation(sig, fmt.Sprintf("after BC.UnmarshalFromBytes(%s) into %s returned nil error, the next call BC.UnmarshalFromBytes(%x) of an unrelated valid message gave %+v err=%v", c23Hex(in), tg.name, canaryBytes, got, err),
